@@ -58,13 +58,20 @@ inline long long val_ll(V v) {
 	else return as_ll(v);
 }
 
+// source position of the access inside the frigg header (set by the std::verif_atomic front end)
+struct SrcPos { int line = 0; const char *fn = ""; };
+inline SrcPos &src_pos() { static thread_local SrcPos p; return p; }
+inline void (*&access_hook())(const void *, const char *) { static void (*f)(const void *, const char *) = nullptr; return f; }
+
 inline void access_event(const void *addr, const char *kind, int mo, long long val, long long val2, int yield_kind) {
 	if(log_accesses()) {
 		Ev ev("A");
 		ev.i("t", tid()).str("op", cur_op()).str("var", vars().of(addr)).str("k", kind).str("mo", mo_name(mo)).i("val", val);
 		if(val2 != -999999) ev.i("new", val2);
+		if(src_pos().line) { ev.str("fn", src_pos().fn).i("line", src_pos().line); src_pos().line = 0; }
 		ev.emit();
 	}
+	if(access_hook()) access_hook()(addr, kind);
 	seam_yield(yield_kind);
 }
 
@@ -96,7 +103,7 @@ template<class T> inline bool a_cas(T *p, T *expected, T desired, int mo_ok, int
 	T exp0 = *expected;
 	bool ok = __atomic_compare_exchange_n(p, expected, desired, false, __ATOMIC_SEQ_CST, __ATOMIC_SEQ_CST);
 	if(ok) access_event(p, "rmw", mo_ok, val_ll(exp0), val_ll(desired), 1);
-	else access_event(p, "load", mo_fail, val_ll(*expected), -999999, 0);   // a failed CAS is a load
+	else access_event(p, "casfail", mo_fail, val_ll(*expected), -999999, 0);   // a failed CAS is a load
 	return ok;
 }
 inline void a_pause() { }
@@ -105,6 +112,8 @@ inline void a_pause() { }
 
 namespace std {
 // stand-in for std::atomic<T> inside the frigg headers (same member API as far as frigg uses it)
+#define VT_POS int line_ = __builtin_LINE(), const char *fn_ = __builtin_FUNCTION()
+#define VT_SET vt::src_pos().line = line_; vt::src_pos().fn = fn_
 template<class T>
 struct verif_atomic {
 	T v;
@@ -112,23 +121,21 @@ struct verif_atomic {
 	constexpr verif_atomic(T x) noexcept : v(x) {}
 	verif_atomic(const verif_atomic &) = delete;
 	verif_atomic &operator=(const verif_atomic &) = delete;
-	T load(memory_order mo = memory_order_seq_cst) const noexcept(false) { return vt::a_load(&v, (int)mo); }
-	void store(T x, memory_order mo = memory_order_seq_cst) noexcept(false) { vt::a_store(&v, x, (int)mo); }
-	T exchange(T x, memory_order mo = memory_order_seq_cst) noexcept(false) { return vt::a_exchange(&v, x, (int)mo); }
-	template<class U = T> T fetch_add(U x, memory_order mo = memory_order_seq_cst) noexcept(false) { return vt::a_fetch_add(&v, x, (int)mo); }
-	template<class U = T> T fetch_sub(U x, memory_order mo = memory_order_seq_cst) noexcept(false) { return vt::a_fetch_sub(&v, x, (int)mo); }
-	bool compare_exchange_strong(T &e, T d, memory_order ok, memory_order fail) noexcept(false) { return vt::a_cas(&v, &e, d, (int)ok, (int)fail); }
-	bool compare_exchange_strong(T &e, T d, memory_order mo = memory_order_seq_cst) noexcept(false) {
-		int f = (int)mo == __ATOMIC_ACQ_REL ? __ATOMIC_ACQUIRE : ((int)mo == __ATOMIC_RELEASE ? __ATOMIC_RELAXED : (int)mo);
-		return vt::a_cas(&v, &e, d, (int)mo, f);
-	}
-	bool compare_exchange_weak(T &e, T d, memory_order ok, memory_order fail) noexcept(false) { return vt::a_cas(&v, &e, d, (int)ok, (int)fail); }
-	bool compare_exchange_weak(T &e, T d, memory_order mo = memory_order_seq_cst) noexcept(false) { return compare_exchange_strong(e, d, mo); }
-	operator T() const noexcept(false) { return load(); }
-	T operator=(T x) noexcept(false) { store(x); return x; }
-	T operator++() noexcept(false) { return fetch_add(1) + 1; }
-	T operator++(int) noexcept(false) { return fetch_add(1); }
-	T operator--() noexcept(false) { return fetch_sub(1) - 1; }
-	T operator--(int) noexcept(false) { return fetch_sub(1); }
+	T load(memory_order mo = memory_order_seq_cst, VT_POS) const { VT_SET; return vt::a_load(&v, (int)mo); }
+	void store(T x, memory_order mo = memory_order_seq_cst, VT_POS) { VT_SET; vt::a_store(&v, x, (int)mo); }
+	T exchange(T x, memory_order mo = memory_order_seq_cst, VT_POS) { VT_SET; return vt::a_exchange(&v, x, (int)mo); }
+	T fetch_add(T x, memory_order mo = memory_order_seq_cst, VT_POS) { VT_SET; return vt::a_fetch_add(&v, x, (int)mo); }
+	T fetch_sub(T x, memory_order mo = memory_order_seq_cst, VT_POS) { VT_SET; return vt::a_fetch_sub(&v, x, (int)mo); }
+	bool compare_exchange_strong(T &e, T d, memory_order ok, memory_order fail, VT_POS) { VT_SET; return vt::a_cas(&v, &e, d, (int)ok, (int)fail); }
+	bool compare_exchange_weak(T &e, T d, memory_order ok, memory_order fail, VT_POS) { VT_SET; return vt::a_cas(&v, &e, d, (int)ok, (int)fail); }
+	static int fail_order(memory_order mo) { return (int)mo == __ATOMIC_ACQ_REL ? __ATOMIC_ACQUIRE : ((int)mo == __ATOMIC_RELEASE ? __ATOMIC_RELAXED : (int)mo); }
+	bool compare_exchange_strong(T &e, T d, memory_order mo = memory_order_seq_cst, VT_POS) { VT_SET; return vt::a_cas(&v, &e, d, (int)mo, fail_order(mo)); }
+	bool compare_exchange_weak(T &e, T d, memory_order mo = memory_order_seq_cst, VT_POS) { VT_SET; return vt::a_cas(&v, &e, d, (int)mo, fail_order(mo)); }
+	operator T() const { return vt::a_load(&v, __ATOMIC_SEQ_CST); }
+	T operator=(T x) { vt::a_store(&v, x, __ATOMIC_SEQ_CST); return x; }
+	T operator++() { return vt::a_fetch_add(&v, 1, __ATOMIC_SEQ_CST) + 1; }
+	T operator++(int) { return vt::a_fetch_add(&v, 1, __ATOMIC_SEQ_CST); }
+	T operator--() { return vt::a_fetch_sub(&v, 1, __ATOMIC_SEQ_CST) - 1; }
+	T operator--(int) { return vt::a_fetch_sub(&v, 1, __ATOMIC_SEQ_CST); }
 };
 }
